@@ -194,6 +194,9 @@ class _AbstractOrderedSet(AbstractSet[T], Sequence[T]):  # noqa: PLW1641
                 return False
         except TypeError:
             pass
+        if not isinstance(other, AbstractSet):
+            # `in` on a one-shot iterator consumes it, so materialise it once.
+            other = set(other)
         return all(item in other for item in self)
 
     def issuperset(self, other: Iterable[T]) -> bool:
@@ -231,8 +234,10 @@ class _AbstractOrderedSet(AbstractSet[T], Sequence[T]):  # noqa: PLW1641
             The symmetric difference.
         """
         cls = self.__class__
+        # Materialise `other` once, it might be a one-shot iterator.
+        other = cls(other)
         diff1 = cls(self).difference(other)
-        diff2 = cls(other).difference(self)
+        diff2 = other.difference(self)
         return diff1.union(diff2)
 
 
@@ -298,6 +303,8 @@ class OrderedSet(_AbstractOrderedSet[T], MutableSet[T]):
         Args:
             other: The other set.
         """
+        # Materialise `other` once, it might be a one-shot iterator.
+        other = tuple(other)
         items_to_add = [item for item in other if item not in self]
         items_to_remove = cast("set[T]", set(other))
         self._items = {item: None for item in self._items if item not in items_to_remove}
